@@ -309,4 +309,19 @@ PROPS = {
             "os.exists/os.tree (file metadata) are in the safe library by design and are not counted as file-reading functions",
         ],
     },
+    "C17": {
+        "level": "exploration",
+        "technique": "property-based testing (rapid), model-based: generated histories of update/observe/cancel/hangup against a 40-line sequential reference model of the engine, plus concurrent clients checked by history predicates",
+        "level_text": "Generated-input search. Sequential mode: histories of 3-25 operations on engine.Start(): updates (good, failing, referring to $), observers (good, failing "
+                      "immediately, failing only on later states, with callbacks that return an error on their n-th call), cancel (also twice and after hang-up), Hangup, always followed by a "
+                      "further update. Every call must return within 10 s; after every operation each observer must have been sent exactly the values its expression has on the states installed since "
+                      "it subscribed (initial notification included), in order; an Update is answered with an error iff its expression fails on the current state. Concurrent mode: 2-4 client "
+                      "goroutines each write c<i>: 1..k into $ while 1-3 observers watch: all updates acknowledged, every observer stream changes exactly one client's counter by +1 per state, "
+                      "ends with every counter at k, and all observers saw the same order.",
+        "level_note": "Trusted: the reference model in c17_test.go (expression values are computed with the real evaluator on the model's state; the protocol is what is modelled), "
+                      "the 10 s bound, rapid. A history that kills the process is captured through a pending-case file and reported as a violation. Interleavings are those the Go scheduler produces.",
+        "tests": [{"name": "TestC17", "quick": 250, "thorough": 4000}],
+        "rule": "non-trivial: the history has a failing observer or callback, a double cancel, or a hang-up (each followed by at least one more update), or it is concurrent. Distinct = distinct case JSON.",
+        "assumptions": COMMON_ASSUMPTIONS,
+    },
 }
